@@ -524,6 +524,19 @@ theorem every_emitted_wire_accepted (cfg : Cfg) (env : Env) (w : Wire) (g : Good
   rw [h1] at this
   exact this
 
+/-- **one_wire_per_call.** In every history of the composed model, on either front-end (`unregister` under the
+    command lock): every request made so far — `register`, `unregister` or a route of the starting task — has put
+    exactly one command Interest on the face, except those still waiting for the lock; and the commands and returns
+    of the trace alternate (never two commands in flight), whatever bytes came back. -/
+theorem one_wire_per_call (cfg : Cfg) (hl : cfg.unregLock = true) (env : Env) (w : Wire) (t0 : Nat) (evs : List WEv) :
+    (runW cfg env w (init t0) evs).2.2.length + (runW cfg env w (init t0) evs).1.queue.length
+      = (runW cfg env w (init t0) evs).1.nextId ∧
+    alt none (runW cfg env w (init t0) evs).2.1 = some (runW cfg env w (init t0) evs).1.inflight := by
+  refine ⟨?_, one_at_a_time cfg hl env t0 _⟩
+  have := one_command_per_call cfg hl env t0 (evs.filterMap (absEv w.H))
+  simp only [runW, wiresFrom_length]
+  exact this
+
 /-- **wire_timestamps_strict.** … and the timestamps a forwarder reads back from the emitted wires, in emission
     order, are strictly increasing: every command of the history is on the face as a wire (`ws`), each wire
     carries a readable timestamp, and these timestamps increase strictly — registrations and unregistrations of
